@@ -178,6 +178,9 @@ func (x *Exec) selector(st *State, e *ast.SelectorExpr) Term {
 		cur.Go = f.Type()
 		curT = f.Type()
 	}
+	if cur.Sort.Kind == KInt || cur.Sort.Kind == KSlice || cur.Sort.Kind == KMap {
+		x.assume(st, c.typeFactsQ(cur, cur.Go, 0, 0))
+	}
 	return cur
 }
 
@@ -317,13 +320,13 @@ func (x *Exec) binary(st *State, e *ast.BinaryExpr) Term {
 			x.u.ensureStrOrder()
 			switch e.Op {
 			case token.LSS:
-				return app(sortBool, "str.lt", a, b)
+				return app(sortBool, "gs.lt", a, b)
 			case token.GTR:
-				return app(sortBool, "str.lt", b, a)
+				return app(sortBool, "gs.lt", b, a)
 			case token.LEQ:
-				return tNot(app(sortBool, "str.lt", b, a))
+				return tNot(app(sortBool, "gs.lt", b, a))
 			default:
-				return tNot(app(sortBool, "str.lt", a, b))
+				return tNot(app(sortBool, "gs.lt", a, b))
 			}
 		}
 		if a.Sort.Kind != KInt {
@@ -334,7 +337,7 @@ func (x *Exec) binary(st *State, e *ast.BinaryExpr) Term {
 	}
 	if a.Sort.Kind == KStr && e.Op == token.ADD {
 		x.u.ensureStrCat()
-		return app(sortStr, "str.cat", a, b)
+		return app(sortStr, "gs.cat", a, b)
 	}
 	if a.Sort.Kind != KInt || b.Sort.Kind != KInt {
 		x.abstractNote(e, "arithmetic on "+a.Sort.Name+" (havocked)")
@@ -450,11 +453,12 @@ func (x *Exec) index(st *State, e *ast.IndexExpr) Term {
 		x.assert(st, tAnd(app(sortBool, "<=", tInt(0), i), app(sortBool, "<", i, c.slLen(base))), "idx", x.exprText(e), e, "index in range: "+x.exprText(e))
 		t := c.slAt(base, i)
 		t.Go = x.typeOf(e)
+		x.assume(st, c.typeFactsQ(t, t.Go, 0, 0))
 		return t
 	case KStr:
 		i := x.expr(st, e.Index)
-		x.assert(st, tAnd(app(sortBool, "<=", tInt(0), i), app(sortBool, "<", i, app(sortInt, "str.len", base))), "idx", x.exprText(e), e, "index in range: "+x.exprText(e))
-		t := app(sortInt, "str.at", base, i)
+		x.assert(st, tAnd(app(sortBool, "<=", tInt(0), i), app(sortBool, "<", i, app(sortInt, "gs.len", base))), "idx", x.exprText(e), e, "index in range: "+x.exprText(e))
+		t := app(sortInt, "gs.at", base, i)
 		t.Go = x.typeOf(e)
 		return t
 	case KMap:
@@ -464,6 +468,7 @@ func (x *Exec) index(st *State, e *ast.IndexExpr) Term {
 		if mt != nil {
 			vt = mt.Elem()
 		}
+		x.assume(st, c.typeFactsQ(c.mapVal(base, k), vt, 1, 0))
 		t := tIte(c.mapHas(base, k), c.mapVal(base, k), c.zero(base.Sort.Elem, vt))
 		t.Go = vt
 		return t
@@ -485,7 +490,7 @@ func (x *Exec) sliceExpr(st *State, e *ast.SliceExpr) Term {
 	case KSlice:
 		ln = c.slLen(base)
 	case KStr:
-		ln = app(sortInt, "str.len", base)
+		ln = app(sortInt, "gs.len", base)
 	default:
 		x.unsupported(e, "slice of %s", base.Sort.Name)
 	}
@@ -591,6 +596,9 @@ func (x *Exec) exprOrLit(st *State, e ast.Expr, want *Sort) Term {
 func (x *Exec) coerce(t Term, want *Sort) Term {
 	if t.Sort.Name == want.Name {
 		return t
+	}
+	if t.Sort.Kind == KOpaque && strings.HasPrefix(t.Sort.Name, "O_nil") {
+		return x.c().zero(want, nil)
 	}
 	if want.Kind == KErr && t.Sort.Kind != KErr {
 		// concrete value converted to error interface: fresh non-nil error determined by the value
